@@ -84,6 +84,11 @@ class Ctx:
             r["discharged"] += 1
             if sample is not None and len([s for s in self.samples if s.get("rule") == rule]) < 3:
                 self.samples.append({"rule": rule, "site": f"{func}: {construct}", "discharged_by": sample})
+        elif rule in getattr(self, "outside", {}):
+            # a shared audit saw a defect that is not a necessary condition of THIS property (it is one of the property named
+            # in `outside`): the obligation is not counted here, the observation is kept as a note
+            r["obligations"] -= 1
+            self.note(f"[{rule}] outside {self.prop} ({self.outside[rule]}): {func}: {message[:160]}")
         else:
             self.findings.append(Finding(rule, func, construct, message, detail, where))
         return ok
